@@ -210,7 +210,8 @@ func (s *scenario) network(res *mbt.Result, heights uint64, mode string) []netEv
 	submit := func(h uint64) {
 		// transactions for the block after height h, generated against node 0's state
 		hh := h + 1
-		tg := &txGen{rng: rng, s: s, g: g, signer: types.MakeSigner(nodes[0].bc.Config(), &hh), next: map[common.Address]uint64{}}
+		tg := &txGen{rng: rng, s: s, g: g, signer: types.MakeSigner(nodes[0].bc.Config(), &hh), next: map[common.Address]uint64{},
+			legacy: !nodes[0].bc.Config().IsGalaxias(&hh)}
 		n := 1 + rng.Intn(6)
 		var txs []*types.Transaction
 		for i := 0; i < n; i++ {
